@@ -124,8 +124,8 @@ impl<TA, M, OA, N> TrackStore<TA, M, OA, N> {
                 self.shape(),
                 it.seq().len() == self.stores@.len(),
                 forall|i: int| 0 <= i < it.seq().len() ==> *#[trigger] it.seq()[i] == self.stores@[i],
-                result@.len() == it.index@,
-                forall|i: int| 0 <= i < result@.len() ==> #[trigger] result@[i] == self.stores@[i]@.len(),
+                result@.len() == it.index@, //# C09/store.shard_stats.one_count_per_shard
+                forall|i: int| 0 <= i < result@.len() ==> #[trigger] result@[i] == self.stores@[i]@.len(), //# C09/store.shard_stats.each_count_is_the_number_of_tracks_in_that_shard
 //@END
 
 //@PASTE file=src/track/store.rs anchor=`pub fn add_track(&mut self, track: Track<TA, M, OA, N>) -> Result<u64> {` result=r fn=TrackStore::add_track
@@ -156,8 +156,8 @@ impl<TA, M, OA, N> TrackStore<TA, M, OA, N> {
                 self.shape(),
                 self.num_shards == old(self).num_shards,
                 wf(old(self).tracks()),
-                removed_prefix(self.tracks(), old(self).tracks(), tracks@, it.index@ as int), //# C09/store.fetch_tracks.exactly_the_listed_ids_leave_the_store_and_the_rest_is_unchanged
-                fetched_prefix(res@, old(self).tracks(), tracks@, it.index@ as int), //# C09/store.fetch_tracks.each_stored_listed_track_is_returned_once_and_unchanged
+                removed_prefix(self.tracks(), old(self).tracks(), tracks@, it.index@ as int),
+                fetched_prefix(res@, old(self).tracks(), tracks@, it.index@ as int),
 //@GHOST before=`res.push(t);`
                 proof {
                     let r2 = res@.push(t);
